@@ -947,8 +947,9 @@ def _brief(o):
     return o
 
 
-def replay_case(ctx, r):
-    """`./check Cxx --replay file`: re-executes the stored case on impl and model and prints both."""
+def replay_case(ctx, r, oracle=None):
+    """`./check Cxx --replay file`: re-executes the stored case on impl and model, prints both and the oracle's
+    verdict (exit status 1 when the property fails on the implementation outside the known findings)."""
     case = C.unjsonable(r.get('replay', r))
     trace, residue, snap = execute(case['mode'], case['cfg'], case['ops'], case.get('coro', False))
     for i, (op, im, mo) in enumerate(trace):
@@ -959,7 +960,21 @@ def replay_case(ctx, r):
         if d:
             print('   DIFF : %s' % d)
     print('residue impl=%r model=%r' % (residue, snap))
-    return 0
+    if oracle is None:
+        return 0
+    fails = oracle(case['cfg'], trace, residue)
+    known, _ = C.known_findings()
+    listed = dict(known.get(ctx.prop, []))
+    rc = 0
+    for sig, text in fails:
+        if sig is not None and sig in listed:
+            print('oracle: KNOWN-FINDING %s: %s' % (sig, text))
+        else:
+            print('oracle: FAILS: %s' % (text,))
+            rc = 1
+    if not fails:
+        print('oracle: holds')
+    return rc
 
 
 # ------------------------------------------------------------------ helpers for oracles
